@@ -71,8 +71,28 @@ static int size_b(int sz)
 	static const int q[] = {0, 1, 15, 16, 17, 33, 40};
 	return g_tier_q ? in_set(sz, q, 7) : (sz >= 0 && sz <= 80);
 }
+/* sizes beyond the dense range (Kernels.tla: SizesBig, CountsBig, ConstBig) */
+static int is_big(int sz) { return sz > max_size(); }
+static int size_big(int sz)
+{
+	static const int q[] = {255, 256, 257, 1024, 4095, 4096, 4097, 8197};
+	static const int t[] = {127, 128, 129, 255, 256, 257, 1023, 1024, 1025, 2048, 4095, 4096, 4097, 8191, 8192, 8193, 12288, 16385};
+	return g_tier_q ? in_set(sz, q, 8) : in_set(sz, t, 18);
+}
+static int count_big(int n)
+{
+	static const int q[] = {2, 9, 17}, t[] = {1, 2, 3, 8, 9, 11, 16, 17};
+	return g_tier_q ? in_set(n, q, 3) : in_set(n, t, 8);
+}
+static int max_any_size(void) { return g_tier_q ? 8197 : 16385; }
 static int is_group(int sz, int n, int p, int c)
 {
+	if (is_big(sz)) {
+		if (!size_big(sz) || p != 2) return 0;
+		if (g_kid == 0) return n == 1 && c == 0;
+		if (g_kid <= 2) return count_big(n) && c == 0;
+		return n == 1 && c == (field_bits() == 8 ? 142 : 9);
+	}
 	if (sz < 0 || sz > max_size() || (p != 0 && p != 1)) return 0;
 	if (g_kid == 0) return n == 1 && c == 0;
 	if (g_kid <= 2) return n >= 0 && n <= max_count() && c == 0;
@@ -85,8 +105,9 @@ static int n_src(int n) { return g_kid == 1 ? n : 1; }
 static int n_buf(int n) { return n_dst(n) + n_src(n); }
 
 /* alignment sequences: 0 = every vector of (0..7)^nb, 1 = uniform, 2 = uniform then staggered */
-static int al_scheme(int n, int p, int c)
+static int al_scheme(int sz, int n, int p, int c)
 {
+	if (is_big(sz)) return 3;
 	if (p == 1 && g_tier_q) return 1;
 	if (g_kid >= 3 && !const_a(c)) return 2;
 	return n_buf(n) <= 3 ? 0 : 2;
@@ -95,11 +116,13 @@ static long al_count(int scheme, int nb)
 {
 	if (scheme == 1) return 8;
 	if (scheme == 2) return 16;
+	if (scheme == 3) return 3;
 	long k = 1; for (int i = 0; i < nb; i++) k *= 8; return k;
 }
 static void al_vector(int scheme, int nb, long k, int *a)
 {
-	if (scheme == 0) { for (int b = nb - 1; b >= 0; b--) { a[b] = (int)(k % 8); k /= 8; } }
+	if (scheme == 3) { for (int b = 0; b < nb; b++) a[b] = k == 0 ? 0 : k == 1 ? 1 : (5 + b) % 8; }
+	else if (scheme == 0) { for (int b = nb - 1; b >= 0; b--) { a[b] = (int)(k % 8); k /= 8; } }
 	else if (scheme == 1 || k < 8) { for (int b = 0; b < nb; b++) a[b] = (int)k; }
 	else { for (int b = 0; b < nb; b++) a[b] = (int)((k - 8 + b) % 8); }
 }
@@ -108,6 +131,7 @@ static void al_vector(int scheme, int nb, long k, int *a)
 static unsigned byte_of(int p, int i, int j)
 {
 	if (p == 0) return (unsigned)(37 * i + 11 * j + 5) % 256u;
+	if (p == 2) return (unsigned)(37 * i + 29 * (i / 251) + 11 * j + 5) % 256u;
 	return (unsigned)((i + 1) * (j + 3) * 167 + i * i * 13 + 91) % 256u;
 }
 static unsigned content(int p, int i, int j) { unsigned b = byte_of(p, i, j); return g_kid == 5 ? b % 16u : b; }
@@ -184,10 +208,10 @@ static void entry_commit(struct ebuf *e)
 static void run_params(const struct group *g, long r, int *a, int *v)
 {
 	int nb = n_buf(g->n);
-	al_vector(al_scheme(g->n, g->p, g->c), nb, r / 2, a);
+	al_vector(al_scheme(g->sz, g->n, g->p, g->c), nb, r / 2, a);
 	*v = (int)(r % 2);
 }
-static long runs_of(const struct group *g) { return 2 * al_count(al_scheme(g->n, g->p, g->c), n_buf(g->n)); }
+static long runs_of(const struct group *g) { return 2 * al_count(al_scheme(g->sz, g->n, g->p, g->c), n_buf(g->n)); }
 
 static void fault_entry(const struct group *g, long r, int f, const char *w)
 {
@@ -305,15 +329,17 @@ int main(int argc, char **argv)
 	int only[4], have_only = 0;
 	if (getenv("KD_ONLY") && sscanf(getenv("KD_ONLY"), "%d,%d,%d,%d", &only[0], &only[1], &only[2], &only[3]) == 4) have_only = 1;
 	long cap = 0;
-	for (int sz = 0; sz <= max_size(); sz++)
-		for (int n = 0; n <= 32; n++)
-			for (int p = 0; p <= 1; p++)
+	for (int sz = 0; sz <= max_any_size(); sz++) {
+		if (is_big(sz) && !size_big(sz)) continue;
+		for (int n = 0; n <= 31; n++)
+			for (int p = 0; p <= 2; p++)
 				for (int c = 0; c < 256; c++) {
 					if (!is_group(sz, n, p, c)) continue;
 					if (have_only ? !(sz == only[0] && n == only[1] && p == only[2] && c == only[3]) : (sz % g_parts != g_part)) continue;
 					if (NG == cap) { cap = cap ? cap * 2 : 1024; G = realloc(G, (size_t)cap * sizeof *G); if (!G) return 2; }
 					G[NG].sz = sz; G[NG].n = n; G[NG].p = p; G[NG].c = c; NG++;
 				}
+	}
 
 	S = mmap(NULL, sizeof *S, PROT_READ | PROT_WRITE, MAP_SHARED | MAP_ANONYMOUS, -1, 0);
 	if (S == MAP_FAILED) { perror("mmap"); return 2; }
